@@ -75,7 +75,7 @@ PROPS = {
         partial=["C04_allow_exact over tree histories not proved"]),
     "C05": rt(500, 10000, ["serve", "handle-rejected"],
         "40% malformed / arbitrary-byte patterns, reserved/unknown/duplicate methods, raw paths ('', '*', NUL, 0xff, long), Remove/Clean histories, URL and CheckSyntax on the same strings; every call under recover()",
-        props=["TreeMatch", "C05hist"],
+        props=["TreeMatch", "C05hist"], extra_runs=[("C14", "C05m", 0.4), ("C15", "C05m", 0.3), ("C13", "C05g", 0.3)],
         level_text="C05_serve_total: for EVERY history of Handle/Remove/Clean/Use from a new tree (any patterns, any methods, rejected calls included) and every request (any method bytes, any path bytes incl. '' and '*'), dispatch returns a handler and never faults - by the invariant tree_safe (index entries in range, 405 handler wherever handlers exist, root answers) proved for new_tree and preserved by tree_add (through the continuation-passing add_segment/split), tree_remove, tree_clean and tree_apply_mw (C05_add_safe, C05_remove_safe, C05_clean_safe, C05_use_safe, C05_handler_total); C05_match_no_panic, C05_build_indexes_ok, C05_sort_node_idx_ok underneath. Every Go fault site of the modelled code is an explicit Panic result in the model, compared with the implementation's recover() classification.",
         level_note="proved for dispatch (ServeHTTP's matching and handler lookup). Not proved: that the registration functions themselves never return the model's Panic (slice bounds inside Split/NewSegment, fuel sufficiency of add_segment) - covered by the byte-level fuzzing correspondence; Hosts/version matchers and net/http glue are exercised, not proved.",
         partial=["C05_handle_error_or_ok (tree_add never returns Panic) not proved"]),
